@@ -1,10 +1,55 @@
-import RgVerif.Model.Sx
+import RgVerif.Driver.SearcherCommon
+import RgVerif.Spec.MultiLine
 namespace RgVerif.Driver.C13
-open RgVerif
+open RgVerif RgVerif.Searcher RgVerif.MLSpec RgVerif.Driver.SearcherCommon
 
-/-- Request handler of property C13: `cmd` is the first token of the line, `args` the rest. -/
+/-- `c13.spec cfg matcher inp` → the multi-line model of the input (S). -/
+def handleMlSpec (args : List Sx) : String :=
+  match args with
+  | [cfg, m, inp] =>
+    match parseCfg cfg, parseMatcher m, inp.bytes? with
+    | some cfg, some mk, some inp =>
+      let r0 := showEvents (mlSpec cfg (mk inp false) inp)
+      let r1 := showEvents (mlSpec cfg (mk inp true) inp)
+      if r0 == r1 then r0 ++ "|ok" else "table-miss"
+    | _, _, _ => "bad-op"
+  | _ => "bad-op"
+
+/-- `c13.guard cfg matcher inp` → `1` iff the inverted scan cannot miss a match (`invertSafe`). -/
+def handleGuard (args : List Sx) : String :=
+  match args with
+  | [cfg, m, inp] =>
+    match parseCfg cfg, parseMatcher m, inp.bytes? with
+    | some cfg, some mk, some inp =>
+      let g0 := invertSafe cfg (mk inp false) inp
+      let g1 := invertSafe cfg (mk inp true) inp
+      if g0 == g1 then (if g0 then "1" else "0") else "table-miss"
+    | _, _, _ => "bad-op"
+  | _ => "bad-op"
+
+/-- `c13.matches matcher inp` → the successive matches `s:e …` of the spec's iteration. -/
+def handleMatches (args : List Sx) : String :=
+  match args with
+  | [m, inp] =>
+    match parseMatcher m, inp.bytes? with
+    | some mk, some inp =>
+      let show_ := fun (ms : List Matcher.Span) => " ".intercalate (ms.map fun sp => s!"{sp.s}:{sp.e}")
+      let r0 := show_ (mlMatches (mk inp false) inp)
+      let r1 := show_ (mlMatches (mk inp true) inp)
+      if r0 == r1 then (if r0.isEmpty then "-" else r0) else "table-miss"
+    | _, _ => "bad-op"
+  | _ => "bad-op"
+
+/-- Request handler of property C13: `c13.model cfg matcher inp sink` (M: `Searcher::search_slice`, which
+picks `MultiLine` when `ml 1` and the matcher can match the terminator), `c13.spec`, `c13.guard`,
+`c13.matches`, `c13.path cfg matcher`. -/
 def handle (cmd : String) (args : List Sx) : String :=
-  match cmd, args with
-  | _, _ => "bad-op"
+  match cmd with
+  | "c13.model" => handleModel args
+  | "c13.spec" => handleMlSpec args
+  | "c13.guard" => handleGuard args
+  | "c13.matches" => handleMatches args
+  | "c13.path" => handlePath args
+  | _ => "bad-op"
 
 end RgVerif.Driver.C13
